@@ -386,6 +386,24 @@ func genC09Dynamic(t *rapid.T) *vnet.Scenario {
 	// a receiving application that pauses: the peer's window stays full for
 	// several resend rounds
 	drawSlowReaders(t, sc, 2*minResend)
+	// a transport whose send function fails once (the connection may give
+	// up, but it must not lose count): in a burst almost every packet is the
+	// one that fills the window again
+	if rapid.IntRange(0, 4).Draw(t, "send_fails") == 0 {
+		at := rapid.IntRange(0, 3*sc.N+20).Draw(t, "fail_at")
+		put := func(script []vnet.Decision) []vnet.Decision {
+			for len(script) <= at {
+				script = append(script, vnet.Decision{Kind: vnet.Deliver})
+			}
+			script[at] = vnet.Decision{Kind: vnet.Fail}
+			return script
+		}
+		if rapid.Bool().Draw(t, "fail_dir") {
+			sc.FaultsC2S = put(sc.FaultsC2S)
+		} else {
+			sc.FaultsS2C = put(sc.FaultsS2C)
+		}
+	}
 	return sc
 }
 
@@ -579,6 +597,131 @@ func TestC09Blocking(t *testing.T) {
 		}
 		if v != "" {
 			rec.Pending(v, "block", c)
+			rt.Fatalf("%s", v)
+		}
+	})
+	rec.Done()
+}
+
+// ---------- blocking with a transport that fails once ----------
+
+// sendFailCase: N+K back-to-back Sends while the acknowledgements are one
+// round trip away, and the transport's send function fails for the first
+// transmission of DATA packet number FailAt. The connection may give up (its
+// Sends then return errors), but whatever it does, no more than N Sends may
+// be accepted before the first acknowledgement can have arrived.
+type sendFailCase struct {
+	N       int  `json:"n"`
+	K       int  `json:"k"`
+	FailAt  int  `json:"fail_at"`
+	FwdMs   int  `json:"fwd_ms"`
+	RevMs   int  `json:"rev_ms"`
+	FromSrv bool `json:"from_srv"`
+}
+
+func runC09SendFail(t *testing.T, c sendFailCase) (violation string) {
+	rtt := c.FwdMs + c.RevMs
+	sc := &vnet.Scenario{N: c.N,
+		Client:     vnet.TimeoutCfg{Static: true, ResendMs: 4*rtt + 1000, HandshakeMs: 4*rtt + 1000},
+		Server:     vnet.TimeoutCfg{Static: true, ResendMs: 4*rtt + 1000, HandshakeMs: 4*rtt + 1000},
+		DeadlineMs: 20000 + 20*rtt}
+	msgs := make([]vnet.Msg, c.N+c.K)
+	for i := range msgs {
+		msgs[i].Len = 6
+	}
+	script := make([]vnet.Decision, c.FailAt+1)
+	for i := range script {
+		script[i] = vnet.Decision{Kind: vnet.Deliver}
+	}
+	script[c.FailAt] = vnet.Decision{Kind: vnet.Fail}
+	d := 0
+	if c.FromSrv {
+		sc.S2C, sc.LatS2CMs, sc.LatC2SMs, d = msgs, c.FwdMs, c.RevMs, 1
+		sc.FaultsS2C = script
+	} else {
+		sc.C2S, sc.LatC2SMs, sc.LatS2CMs = msgs, c.FwdMs, c.RevMs
+		sc.FaultsC2S = script
+	}
+	var env *vnet.Env
+	out := vnet.InBubble(t, bubbleWatchdog, func() {
+		env = vnet.NewEnv(sc)
+		env.StartHandshake()
+		if !env.WaitHandshake(600 * time.Second) {
+			violation = "clean handshake did not complete"
+			env.CloseBoth()
+			return
+		}
+		time.Sleep(ms(2*rtt + 10))
+		// from here on the sending direction carries first transmissions
+		// only (no reverse traffic to acknowledge, resend timeout > 4 RTT)
+		env.ArmFaults()
+		env.StartReceiver(d)
+		env.StartSender(d)
+		env.WaitUntil(ms(sc.DeadlineMs), func() bool { return env.AllDelivered() || env.AnyFailure() })
+		env.CloseBoth()
+	})
+	if violation != "" {
+		return
+	}
+	if out.Panic != "" && !out.Deadlock {
+		return "panic in scenario root: " + out.Panic
+	}
+	ds := env.Dir[d]
+	if len(ds.SendStart) == 0 {
+		return ""
+	}
+	t0 := ds.SendStart[0]
+	rttUs := int64(rtt) * 1000
+	early := 0
+	for _, at := range ds.SendDone {
+		if at-t0 < rttUs {
+			early++
+		}
+	}
+	if early > c.N {
+		return fmt.Sprintf("%d Sends were accepted within %dus, before any acknowledgement could arrive (RTT %dus), with a window of N=%d (the transport failed the first transmission of packet %d): Send must block once N packets are outstanding, whether or not they reached the wire",
+			early, ds.SendDone[early-1]-t0, rttUs, c.N, c.FailAt)
+	}
+	return ""
+}
+
+func TestC09SendFail(t *testing.T) {
+	const unit = "TestC09SendFail"
+	rec := stats.New(t, "C09", unit)
+	var rc sendFailCase
+	if stats.ReplayCase(unit, &rc) {
+		if v := runC09SendFail(t, rc); v != "" {
+			rec.Violation(v, "sendfail", rc)
+			t.Fatal(v)
+		}
+		return
+	}
+	if stats.ReplayMode() {
+		t.Skip()
+	}
+	rapid.Check(t, func(rt *rapid.T) {
+		n := genN().Draw(rt, "n")
+		c := sendFailCase{
+			N:       n,
+			K:       rapid.IntRange(1, 8).Draw(rt, "k"),
+			FwdMs:   rapid.SampledFrom([]int{0, 1, 10, 100}).Draw(rt, "fwd"),
+			RevMs:   rapid.SampledFrom([]int{1, 10, 100, 900}).Draw(rt, "rev"),
+			FromSrv: rapid.Bool().Draw(rt, "from_srv"),
+		}
+		// the packet that fills the window, its neighbours, or any packet
+		c.FailAt = rapid.OneOf(rapid.SampledFrom([]int{n - 1, n - 1, n - 1, n, maxInt(n-2, 0), 0}), rapid.IntRange(0, n+c.K-1)).Draw(rt, "fail_at")
+		rec.Current("sendfail", c)
+		v := runC09SendFail(t, c)
+		label := "fail_elsewhere"
+		if c.FailAt == n-1 {
+			label = "fail_on_window_filling_packet"
+		}
+		rec.Case(true, fmt.Sprintf("%+v", c), label)
+		if rec.WantSample() {
+			rec.Sample(c)
+		}
+		if v != "" {
+			rec.Pending(v, "sendfail", c)
 			rt.Fatalf("%s", v)
 		}
 	})
